@@ -8,7 +8,7 @@ Oracle : runs computed with != on consecutive predicate values: every item in ex
 """
 import itertools
 
-from ..common import Check, Outcome, bootstrap, interleave
+from ..common import Check, Outcome, bootstrap, interleave, with_prelude, prelude_tags, shrink_prelude, PRELUDE_TAGS
 from .. import windows, model, progs
 
 rs = bootstrap()
@@ -52,10 +52,13 @@ class C06(Check):
             'non-trivial = some key lifetime has >= 2 segments; distinct = hash of the case')
     ASSUMPTIONS = ['predicate values are compared with != only (no hashing)']
     ANCHORS = ['rxsci/data/split.py', 'rxsci/operators/multiplex.py']
-    REQUIRED_TAGS = ['top', 'group', 'roll', 'roll_eq', 'split', 'pred=divt', 'pred=divs', 'pred=divbig', 'pred=divhuge', 'pred=divnp', 'pred=divbool', 'pred=divnone', 'single-run', 'runs-of-1', 'empty-key']
+    REQUIRED_TAGS = ['top', 'group', 'roll', 'roll_eq', 'split', 'pred=divt', 'pred=divs', 'pred=divbig', 'pred=divhuge', 'pred=divnp', 'pred=divbool', 'pred=divnone', 'single-run', 'runs-of-1', 'empty-key'] + PRELUDE_TAGS
     REQUIRED_OBSERVED = ['child_lifetimes_checked', 'parent_lifetimes_checked']
 
     def generate(self, rng, tier, shard, nshards):
+        return with_prelude(self._generate(rng, tier, shard, nshards), rng)
+
+    def _generate(self, rng, tier, shard, nshards):
         return interleave(self._box(tier, shard, nshards), self._nested(rng, tier))
 
     def _box(self, tier, shard, nshards):
@@ -92,7 +95,8 @@ class C06(Check):
         items = case['items']
         pred = progs.fn(case['pred'])
         out.tags += [case['parent'].split('>')[0], 'pred=' + case['pred'].split(':')[0]]
-        ob = windows.observe(case['parent_node'], ['split', case['pred'], None], items)
+        ob = windows.observe(case['parent_node'], ['split', case['pred'], None], items, prelude=case.get('prelude'))
+        prelude_tags(case, out)
         if ob.snap.err is not None or not ob.snap.done:
             return out.fail('split:stream-error', error=repr(ob.snap.err), done=ob.snap.done)
         if ob.odd or ob.orphans:
@@ -124,6 +128,7 @@ class C06(Check):
         return {'shards_that_enumerated_their_part_of_the_box_completely': self.box_done}
 
     def shrink(self, case):
+        yield from shrink_prelude(case)
         items = case['items']
         for k in range(len(items)):
             yield dict(case, items=items[:k] + items[k + 1:])
